@@ -44,7 +44,11 @@ Scripts == <<
   Sc("probep", Opt("dev", "c", Var("p0")), NoM, <<>>, <<G(<<>>, <<>>, <<I(0)>>)>>),                               \* 12 option mentions p0
   Sc("probeq", Opt("dev", "d", [t |-> "par", p |-> "p"]), NoM, <<>>, <<G(<<>>, <<>>, <<I(0)>>)>>),                \* 13 option with {p}
   Sc("incok", NoM, NoM, <<IncOk>>, <<Stmt("sub", FALSE, <<>>, <<>>, <<I(3)>>, "none")>>),                         \* 14 include that works
-  Sc("tmplfail", NoM, NoM, <<>>, <<G(<<[t |-> "par", p |-> "p"]>>, <<>>, <<I(0)>>), G(<<Var("y")>>, <<>>, <<I(0)>>)>>)   \* 15 parameter seen, then failure
+  Sc("tmplfail", NoM, NoM, <<>>, <<G(<<[t |-> "par", p |-> "p"]>>, <<>>, <<I(0)>>), G(<<Var("y")>>, <<>>, <<I(0)>>)>>),   \* 15 parameter seen, then failure
+  Sc("idxfail", NoM, NoM, <<>>, <<[t |-> "arr", ty |-> "float", x |-> "A", shape |-> <<>>, rows |-> << <<F(1, 2), F(3, 2), F(5, 2)>> >>],
+                                  G(<<[t |-> "idx", x |-> "A", e |-> I(1)]>>, <<>>, <<I(0)>>), G(<<>>, <<>>, <<F(1, 2)>>)>>),        \* 16 indexes A, then fails (bad mode)
+  Sc("idxother", NoM, NoM, <<>>, <<[t |-> "arr", ty |-> "float", x |-> "A", shape |-> <<>>, rows |-> << <<F(11, 1), F(12, 1)>>, <<F(13, 1), F(14, 1)>> >>],
+                                   G(<<[t |-> "idx", x |-> "A", e |-> I(1)], [t |-> "idx", x |-> "A", e |-> I(3)]>>, <<>>, <<I(0)>>)>>)   \* 17 another A, indexed
 >>
 SyntaxOutcome == Raise("BSE", "syntax")
 Pristine(i) == IF "syntaxerr" \in DOMAIN Scripts[i] THEN SyntaxOutcome ELSE LoadFrom(Fresh, Scripts[i], Base).res
